@@ -3,10 +3,12 @@
               no panic), plus the library models the scanners are written with;
    dispatch : the real postprocessItem on items with every combination of missing response /
               body / MIME / parsed URL, vs the nil-safety model;
+   dcmatch  : the real domainscrawl.Match under a configuration built by the real AddElements vs
+              the matcher model; what fasturl and regexp answer for the text are oracle values;
    fuzz     : outcome of one input on one extractor / the dispatch / the normaliser in an isolated
               child process (nothing to predict: third-party decoders are not modelled; the
               monitors are the property itself: no panic, no hang, no crash). *)
-From ZenoV Require Import Lib.Harness Safe.GoOps Safe.Scanners Safe.Dispatch.
+From ZenoV Require Import Lib.Harness Safe.GoOps Safe.Scanners Safe.Dispatch Safe.DomainsCrawl.
 Open Scope Z_scope.
 
 (* ---------------------------------------------------------------------------------------
@@ -195,3 +197,36 @@ Definition fmon_no_crash (c : fcase) : bool := negb (f_outcome c =? 3)%N.
 
 Definition fdiffs (l : list fcase) : list N := [].
 Definition fmons (l : list fcase) := mon_idx [fmon_no_panic; fmon_no_hang; fmon_no_crash] l.
+
+(* ---------------------------------------------------------------------------------------
+   dcmatch: one (configuration, link text).  The configuration is what the real AddElements
+   stored (read back through a shim); a compiled regular expression is represented by what its
+   MatchString answered for this text (computed by the driver on its own copy), the parse result
+   by what fasturl.ParseURL answered for this text (None = error, nil URL). *)
+Inductive mobs :=
+| MPanic                          (* the real Match panicked (recovered by the driver) *)
+| MBool (b : bool).
+
+Record mcase := MC {
+  m_conf : dc_conf bool;
+  m_raw : bytes;
+  m_parsed : option bytes;
+  m_obs : mobs }.
+
+Definition mpredict (c : mcase) : res bool :=
+  dc_match bool (fun hit _ => hit) (fun _ => m_parsed c) (m_conf c) (m_raw c).
+
+Definition mdiff_case (c : mcase) : bool :=
+  match mpredict c, m_obs c with
+  | Ok b, MBool b' => negb (Bool.eqb b b')
+  | Panic, MPanic => false
+  | _, _ => true
+  end.
+
+(* monitor 0 - the property (C10_domains_crawl_match_total): the real Match returned for this
+   configuration and this text *)
+Definition mmon_total (c : mcase) : bool :=
+  match m_obs c with MPanic => false | MBool _ => true end.
+
+Definition mdiffs (l : list mcase) := bad_idx mdiff_case l.
+Definition mmons (l : list mcase) := mon_idx [mmon_total] l.
